@@ -37,6 +37,26 @@ def cases(tier, seed):
     for nb, ws in ((1, (1, 2)), (2, (1, 2, F(1, 2))), (3, (1, 2))):
         for cands, bl in gen.profiles_exhaustive(3, nb, [F(w) for w in ws]):
             add(cands, bl, 2 if tier == "quick" else 10)
+    # large / awkward rational weights (transfer values with denominators far above 10^3 and 10^6), two surplus transfers
+    for cands, bl in gen.profiles_exhaustive(3, 3, [F(1)]):
+        if idx % 3 == 0:
+            ws = [F(1511), F(997, 3), F(1234577, 2)]
+            cs.append((cands, [(r, ws[k]) for k, (r, _) in enumerate(bl)], (2, "droop", True, "fractional", "random")))
+            cs.append((cands, [(r, ws[(k + 1) % 3]) for k, (r, _) in enumerate(bl)], (2, "droop", False, "fractional", "random")))
+        idx += 1
+    # two candidates crossing the quota together with equal tallies and a surplus (4 candidates, N=14, m=2, droop quota 5)
+    c4 = gen.NAMES[:4]
+    rk4 = gen.rankings(c4)
+    ra = [r for r in rk4 if r[0] == frozenset("A") and len(r) >= 2][::3]
+    rb = [r for r in rk4 if r[0] == frozenset("B") and len(r) >= 2][::3]
+    rc = [r for r in rk4 if r[0] in (frozenset("C"), frozenset("D"))][::5]
+    k = 0
+    for r1 in ra:
+        for r2 in rb:
+            k += 1
+            r3 = rc[k % len(rc)]
+            for sim in (True, False):
+                cs.append((c4, [(r1, F(6)), (r2, F(6)), (r3, F(2))], (2, "droop", sim, ("fractional", "sequential")[k % 2], "random")))
     if tier == "thorough":
         for cands, bl in gen.profiles_exhaustive(3, 3, [F(1), F(3), F(1, 2), F(2, 3)]):
             add(cands, bl, 4)
